@@ -160,6 +160,25 @@ func (u *Unit) heapWellFormed(name string, c Term, sort Sort, a0 Term, guard Ter
 				return and(sx("<=", v, a0), sx(">=", v, "0"))
 			}
 		}
+		// struct-valued cells: references held in their fields exist too
+		if strings.HasPrefix(srt, "S_") {
+			if st, ok := u.ty.structs[strings.TrimPrefix(srt, "S_")]; ok && !u.ty.opaque[strings.TrimPrefix(srt, "S_")] {
+				var fs []Term
+				for i := 0; i < st.NumFields(); i++ {
+					f := st.Field(i)
+					sel := sx(u.ty.selName(Sort(srt), f.Name()), v)
+					switch {
+					case isRefLike(f.Type()):
+						fs = append(fs, and(sx("<=", sel, a0), sx(">=", sel, "0")))
+					case u.ty.sortOf(f.Type()) == SSlc:
+						fs = append(fs, and(sx("<=", sx("slc_arr", sel), a0), sx(">=", sx("slc_arr", sel), "0")))
+					case u.ty.sortOf(f.Type()) == SIfc:
+						fs = append(fs, implies(sx("isPtrTag", sx("ifc_tag", sel)), and(sx("<=", sx("ifc_pay", sel), a0), sx(">=", sx("ifc_pay", sel), "0"))))
+					}
+				}
+				return and(fs...)
+			}
+		}
 		return "true"
 	}
 	s := string(sort)
@@ -433,7 +452,11 @@ func (u *Unit) oblige(st *State, kind, label, site string, goal Term, pos token.
 	if goal == "true" {
 		// still count trivially true goals: they are discharged syntactically
 	}
-	name := fmt.Sprintf("%s#%s", u.top.String(), kind)
+	topName := u.top.String()
+	if u.con != nil && u.con.Concurrent {
+		topName += "[concurrent]"
+	}
+	name := fmt.Sprintf("%s#%s", topName, kind)
 	if label != "" {
 		name += "." + label
 	}
@@ -487,6 +510,7 @@ type loopInfo struct {
 	variant Term
 	autoFrame []string
 	monoEntry map[string]Term
+	headerState *State
 }
 
 type node struct {
@@ -1025,11 +1049,16 @@ func (u *Unit) cutHeader(fn *ssa.Function, n *node, st *State, top bool) *State 
 				u.heapSort[loopGhostHeap(fn, l, g.Name)] = gs
 				st.heaps[loopGhostHeap(fn, l, g.Name)] = u.s.fresh("lg_"+g.Name, gs)
 			} else {
-				u.setHeap(st, loopGhostHeap(fn, l, g.Name), gs, u.evalSpecInt(g.Init, st, fn, l))
+				init := u.evalSpecInt(g.Init, st, fn, l)
+				if init == "" { // untyped nil
+					init = u.ty.zero(g.goType(u.eng, fnPkg(fn)))
+				}
+				u.setHeap(st, loopGhostHeap(fn, l, g.Name), gs, init)
 			}
 		}
 	}
-	// inv.init
+	// inv.init (atStart() refers to the entry state itself)
+	l.headerState = nil
 	if l.spec != nil {
 		for _, inv := range l.spec.Invariants {
 			if inv.Assumed {
@@ -1128,6 +1157,7 @@ func (u *Unit) cutHeader(fn *ssa.Function, n *node, st *State, top bool) *State 
 	for _, k := range l.autoFrame {
 		u.s.assume(implies(out.reach, u.frameUnchangedPat(out, k)))
 	}
+	l.headerState = out
 	// monotone ghost counters never fall below their value at loop entry (kept: see keepEdge)
 	l.monoEntry = map[string]Term{}
 	for name := range u.eng.monotone {
@@ -1179,7 +1209,11 @@ func (u *Unit) keepEdge(fn *ssa.Function, n *node, e *edge, top bool) {
 		pre.reach = c
 		var steps []Term
 		for _, g := range l.spec.Ghosts {
-			steps = append(steps, u.evalSpecInt(g.Step, pre, fn, l))
+			stp := u.evalSpecInt(g.Step, pre, fn, l)
+			if stp == "" { // untyped nil
+				stp = u.ty.zero(g.goType(u.eng, fnPkg(fn)))
+			}
+			steps = append(steps, stp)
 		}
 		for i, g := range l.spec.Ghosts {
 			tmp.heaps[loopGhostHeap(fn, l, g.Name)] = u.s.define("lgstep", u.ty.sortOf(g.goType(u.eng, fnPkg(fn))), steps[i])
